@@ -108,7 +108,7 @@ _POOL = None
 _FN = None
 
 
-JOB_TIMEOUT = int(os.environ.get("VERIF_JOB_TIMEOUT", "900"))
+JOB_TIMEOUT = int(os.environ.get("VERIF_JOB_TIMEOUT", "0")) or (300 if os.environ.get("VERIF_TIER", "quick") == "quick" else 1800)
 
 
 class JobTimeout(BaseException):
